@@ -13,6 +13,7 @@ func init() { register("C07", checkC07) }
 
 func checkC07(c *Ctx) {
 	r := c.R
+	r.Rule("R10.2", "(shared with C10) the logger's registered context keys: each With-form (WithContextKeys included) applies its setting to the new child and leaves the receiver alone")
 	r.Rule("R07.6", "every registered key, every attribute: the loop of fromCtx over the registered context keys and the loop of serializeAttrs over the member list have their natural exit only (an absent key or a special-cased member must not end the traversal)")
 	r.Rule("R07.1", "source order: on every path of collectArgs the per-call slice receives context values, then the logger chain, then the call's own arguments (call order fromCtx < walkParentAttrs < argsToAttrs on the same slice)")
 	r.Rule("R07.2", "ancestors first, iff the flag: the decision functions extracted from collectArgs and walkParentAttrs over {logger has own attrs, inherit flag, owner != nil, ...} say: the chain is walked whenever the flag is on or the logger has attributes; inside the walk the recursive visit of the owner happens exactly when flag and owner != nil, before this logger's own attributes are appended, and emptiness of a logger's own list never cuts the walk when the flag is on")
@@ -37,11 +38,13 @@ func checkC07(c *Ctx) {
 		c07Collect(c, p, m)
 		c08Stores(c, p, m)
 		c07Sort(c, p, m)
+		pooledCtxFromConstructor(c, p, "R07.4")
 		nilContextSafe(c, p, m, "R02.9")
 		c10Frames(c, p, m)
 		contextKeysRegistered(c, p)
 		attrsTraversal(c, p, "R07.6")
 		ctxKeysTraversal(c, p, "R07.6")
+		c10WithSet(c, p, m)
 	}
 	c.Floor["R07.2"] = 12
 	c.Floor["R07.3"] = 6
